@@ -93,6 +93,9 @@ func c16Scenario() *explore.Scenario {
 			// a sibling connection (another GREASE-ECH parrot with its own Config) builds its ClientHello
 			// while this one is waiting for the server's first message, as a client dialling in parallel does
 			sibling := x.Choose("sibling-built-meanwhile", 2) == 1
+			// the caller fixes the client random (documented setter) to bytes that look like the start of an
+			// encrypted_client_hello extension: fe 0d, a small length
+			oddRandom := x.Choose("client-random-looks-like-an-ech-extension", 2) == 1
 			spec, _ := tls.UTLSIdToSpec(n.ID)
 			var g *tls.GREASEEncryptedClientHelloExtension
 			for _, e := range spec.Extensions {
@@ -108,7 +111,7 @@ func c16Scenario() *explore.Scenario {
 				r.Obs = "len-index-out-of-range"
 				return
 			}
-			what := fmt.Sprintf("%s configid-draw=%#02x suite-draw=%d len-draw=%d hrr=%d sibling=%v", n.Name, cfgID, suiteDraw, lenDraw, hrrKind, sibling)
+			what := fmt.Sprintf("%s configid-draw=%#02x suite-draw=%d len-draw=%d hrr=%d sibling=%v", n.Name, cfgID, suiteDraw, lenDraw, hrrKind, sibling) + map[bool]string{true: " client-random=fe0d0010…", false: ""}[oddRandom]
 			saved := rand.Reader
 			defer func() { rand.Reader = saved }()
 			type view struct {
@@ -129,7 +132,7 @@ func c16Scenario() *explore.Scenario {
 				cfg := peer.ClientConfig("example.com")
 				cfg.OmitEmptyPsk = true
 				var unhook func()
-				hs := peer.Run(cfg, n.ID, scfg, peer.Opts{Echo: true, Prepare: withBuildOrder(nil, conn%3), WrapClient: func(e *peer.Endpoint) { ce = e },
+				hs := peer.Run(cfg, n.ID, scfg, peer.Opts{Echo: true, Prepare: c16Prepare(oddRandom, conn%3), WrapClient: func(e *peer.Endpoint) { ce = e },
 					OnConns: func(u *tls.UConn, s *tls.Conn) {
 						if hrrKind == 2 || sibling {
 							hk := &connHooks{}
@@ -271,4 +274,16 @@ func init() {
 			runAll(c, c16Scenarios(thorough), 0)
 			c.Gate(c.Total.Counters["hrr_connections"] > 50, "non-vacuity: %d HRR connections", c.Total.Counters["hrr_connections"])
 		}})
+}
+
+func c16Prepare(oddRandom bool, order int) func(u *tls.UConn) error {
+	if !oddRandom {
+		return withBuildOrder(nil, order)
+	}
+	return func(u *tls.UConn) error {
+		if err := u.BuildHandshakeState(); err != nil {
+			return err
+		}
+		return u.SetClientRandom(append([]byte{0xfe, 0x0d, 0x00, 0x10}, rep(0x21, 28)...))
+	}
 }
